@@ -42,6 +42,14 @@ func corrC13(outDir string, seed uint64, tier string, replay string) *report {
 		{2, "bcrypt/nil,cost=5", 22, alphaCrypt, []int64{5}, false, "", 0, []int{1, 73}, 1 << 30},
 		{4, "argon2/nil,t=2", 11, b64Std, []int64{8, 2, 1}, false, "", 0, []int{0, 16}, 1 << 30},
 		{4, "argon2/2d/v19", 11, b64Std, []int64{8, 1, 1}, true, "$argon2d$", 0x13, []int{0, 16}, 1 << 30},
+		{2, "bcrypt/cost=10", 22, alphaCrypt, []int64{10}, false, "", 0, []int{9}, 1 << 30},
+		{2, "bcrypt/$2a$/cost=11", 22, alphaCrypt, []int64{11}, true, "$2a$", 0, []int{73}, 1 << 30},
+		{5, "sha256/rounds=20000", 16, alphaCrypt, []int64{20000}, false, "", 0, []int{17}, 1 << 30},
+		{6, "sha512/rounds=12345", 16, alphaCrypt, []int64{12345}, false, "", 0, []int{65}, 1 << 30},
+		{7, "sha1/rounds=3000", 8, alphaCrypt, []int64{3000}, false, "", 0, []int{21}, 1 << 30},
+		{8, "sunmd5/rounds=6000", 8, alphaCrypt, []int64{6000}, false, "", 0, []int{12}, 255},
+		{10, "desext/rounds=5000", 4, alphaCrypt, []int64{5000}, false, "", 0, []int{12}, 1 << 30},
+		{4, "argon2/m=1024,t=3,p=2", 11, b64Std, []int64{1024, 3, 2}, false, "", 0, []int{10}, 1 << 30},
 		{9, "des", 2, alphaCrypt, nil, false, "", 0, []int{0, 1, 7, 8}, 8},
 		{10, "desext", 4, alphaCrypt, []int64{2}, false, "", 0, common, 1 << 30},
 		{2, "bcrypt/nil", 22, alphaCrypt, []int64{4}, false, "", 0, common, 1 << 30},
